@@ -199,7 +199,7 @@ pub fn gen_large_payload(rng: &mut Rng, words: usize) -> Payload {
         3 => Leaf::VecUsize(c(rng, words)),
         4 => { let extra = rng.range_usize(0, 7); Leaf::Bytes(c(rng, 8 * words + extra)) },
         5 => { let less = rng.range_usize(0, 63); Leaf::Raw { c: c(rng, 64 * words - less), route: *rng.pick(&[0u8, 2, 3, 4]) } },
-        6 => { let width = gen_width(rng); Leaf::Int { c: c(rng, 64 * words / width), width } },
+        6 => { let width = gen_width(rng); Leaf::Int { c: c(rng, (64 * words / width).min(4_000_000)), width } },
         7 => Leaf::Rank(c(rng, (512 * words).min(40_000_000))),   // one (u64,u64) sample per 512 bits
         _ => Leaf::Bv { c: c(rng, (64 * words).min(40_000_000)), supports: rng.below(8) as u8, route: 0 },
     };
@@ -753,6 +753,12 @@ pub fn build_raw(c: &Content, route: u8) -> RawVector {
 
 pub fn build_int(c: &Content, width: usize) -> IntVector {
     let words = c.words();
+    if c.salt % 4 == 1 {
+        // Route: initialised vector, then set().
+        let mut v = IntVector::with_len(words.len(), width, u64::MAX).unwrap();
+        for (i, w) in words.iter().enumerate() { v.set(i, *w); }
+        return v;
+    }
     let mut v = IntVector::new(width).unwrap();
     for w in words { v.push(w); } // values wider than `width` are truncated by the library
     // The same content, reached through different histories (chosen by the salt): plain pushes,
@@ -792,6 +798,15 @@ pub fn sparse_positions(c: &Content, stride: usize, multiset: bool) -> (usize, V
 
 pub fn build_sparse(c: &Content, stride: usize, multiset: bool) -> SparseVector {
     let (universe, pos) = sparse_positions(c, stride, multiset);
+    // Other public routes to a sparse vector (chosen by the salt): conversion from a plain bitvector,
+    // and the iterator constructor (which sizes the universe to the last value + 1).
+    if !multiset && stride == 1 && c.salt % 4 == 1 {
+        let bv = build_bv(c, 0, 0);
+        return SparseVector::copy_bit_vec(&bv);
+    }
+    if multiset && c.salt % 3 == 0 {
+        if let Ok(v) = SparseVector::try_from_iter(pos.iter().cloned()) { return v; }
+    }
     let mut b = if multiset { SparseBuilder::multiset(universe, pos.len()) } else { SparseBuilder::new(universe, pos.len()).unwrap() };
     for p in pos { b.set(p); }
     SparseVector::try_from(b).unwrap()
